@@ -550,6 +550,7 @@ func run(cx *lib.Ctx) {
 		res.Notes = append(res.Notes, fmt.Sprintf("generated expressions with diagnostics: %.1f%%", 100*float64(d["generated:with-diagnostics"])/float64(t)))
 	}
 	corrFrags(cx)
+	corrTextW(cx)
 }
 
 // plant overwrites a random sub-expression with a reference to a secret variable.
